@@ -41,9 +41,34 @@ impl Drop for Guard {
     }
 }
 
+/// crossbeam-forwarding routes of the current case: (route, receiver, disconnection already logged, log)
+static CB_ROUTES: Mutex<Vec<(usize, crossbeam_channel::Receiver<u64>, bool, Log)>> = Mutex::new(Vec::new());
+
+/// move what the crossbeam receivers hold into the log (messages, then the disconnection, once)
+fn pump() {
+    let mut cbs = CB_ROUTES.lock().unwrap();
+    for (r, rx, done, log) in cbs.iter_mut() {
+        if *done {
+            continue;
+        }
+        loop {
+            match rx.try_recv() {
+                Ok(v) => log.lock().unwrap().push(L::Invoke(*r, v)),
+                Err(crossbeam_channel::TryRecvError::Empty) => break,
+                Err(crossbeam_channel::TryRecvError::Disconnected) => {
+                    log.lock().unwrap().push(L::Drop(*r));
+                    *done = true;
+                    break;
+                },
+            }
+        }
+    }
+}
+
 fn wait_for(log: &Log, pred: impl Fn(&[L]) -> bool, ms: u64) -> bool {
     let t0 = Instant::now();
     loop {
+        pump();
         if pred(&log.lock().unwrap()) {
             return true;
         }
@@ -56,6 +81,14 @@ fn wait_for(log: &Log, pred: impl Fn(&[L]) -> bool, ms: u64) -> bool {
 
 fn add_route(proxy: &RouterProxy, r: usize, log: &Log, reentrant: Option<Arc<RouterProxy>>) -> IpcSender<u64> {
     let (tx, rx) = ipc::channel::<u64>().unwrap();
+    if r % 3 == 2 && reentrant.is_none() {
+        // a crossbeam-forwarding route: what arrives on the crossbeam receiver counts as the route's invocations, its
+        // disconnection (the forwarding callback and the crossbeam sender it owns were dropped) as the route's drop.  The
+        // receiver is read synchronously by `pump()` at every observation point, so that the log order is causal.
+        let cb_rx = proxy.route_ipc_receiver_to_new_crossbeam_receiver(rx);
+        CB_ROUTES.lock().unwrap().push((r, cb_rx, false, log.clone()));
+        return tx;
+    }
     let guard = Guard(r, log.clone());
     let l2 = log.clone();
     proxy.add_route(
@@ -92,6 +125,7 @@ fn per_route(log: &[L], nroutes: usize) -> String {
 }
 
 pub fn seq_case(rng: &mut Rng, id: String) -> Case {
+    CB_ROUTES.lock().unwrap().clear();
     let mut case = Case::new(id);
     let p0 = PANICS.load(Ordering::SeqCst);
     let log: Log = Arc::new(Mutex::new(Vec::new()));
@@ -161,6 +195,7 @@ pub fn seq_case(rng: &mut Rng, id: String) -> Case {
                         let k = shutdowns;
                         move || {
                             p.shutdown();
+                            pump();
                             log.lock().unwrap().push(L::ShutdownReturned(k));
                         }
                     });
@@ -196,6 +231,7 @@ pub fn seq_case(rng: &mut Rng, id: String) -> Case {
     }
     // grace period: anything illegal that is still to happen (late invocations) gets a chance to show
     std::thread::sleep(Duration::from_millis(if stopped { 30 } else { 5 }));
+    pump();
     let l = log.lock().unwrap().clone();
     // every drop precedes the return of shutdown()
     if let Some(k) = l.iter().position(|e| matches!(e, L::ShutdownReturned(0))) {
@@ -225,6 +261,7 @@ pub fn seq_case(rng: &mut Rng, id: String) -> Case {
 }
 
 pub fn race_case(rng: &mut Rng, id: String) -> Case {
+    CB_ROUTES.lock().unwrap().clear();
     let mut case = Case::new(id);
     let p0 = PANICS.load(Ordering::SeqCst);
     let log: Log = Arc::new(Mutex::new(Vec::new()));
@@ -275,6 +312,7 @@ pub fn race_case(rng: &mut Rng, id: String) -> Case {
             let ret = returned.clone();
             hs.push(std::thread::spawn(move || {
                 p.shutdown();
+                pump();
                 l.lock().unwrap().push(L::ShutdownReturned(k));
                 ret.fetch_add(1, Ordering::SeqCst);
             }));
@@ -332,6 +370,7 @@ pub fn race_case(rng: &mut Rng, id: String) -> Case {
         }
     }
     std::thread::sleep(Duration::from_millis(20));
+    pump();
     let l = log.lock().unwrap().clone();
     if let Some(k) = l.iter().position(|e| matches!(e, L::ShutdownReturned(_))) {
         // at the first return of shutdown(): every route registered before has been dropped, nothing is invoked later
@@ -424,7 +463,8 @@ pub fn burst_case(rng: &mut Rng, idx: u64, id: String) -> Case {
         3000,
     );
     if !ok {
-        let l = log.lock().unwrap().clone();
+        pump();
+    let l = log.lock().unwrap().clone();
         let missing: Vec<usize> = (0..n).filter(|r| !(l.contains(&L::Invoke(*r, *r as u64 * 10)) && l.contains(&L::Invoke(*r, *r as u64 * 10 + 1)))).collect();
         case.fail(format!(
             "routes {:?} of {} did not receive their messages within 3 s (burst registration, last route registered from a second thread {} us later, no registration afterwards)",
@@ -432,7 +472,8 @@ pub fn burst_case(rng: &mut Rng, idx: u64, id: String) -> Case {
         ));
     } else {
         // per-route order: the message queued before registration first
-        let l = log.lock().unwrap().clone();
+        pump();
+    let l = log.lock().unwrap().clone();
         for r in 0..n {
             let seq: Vec<u64> = l.iter().filter_map(|e| if let L::Invoke(x, t) = e { if *x == r { Some(*t) } else { None } } else { None }).collect();
             if seq != vec![r as u64 * 10, r as u64 * 10 + 1] {
